@@ -241,7 +241,7 @@ func runC02(c *eng.Ctx) {
 	if fn := c.Fn(cl + "(*leaderEpochCache).findEpoch$1"); fn != nil {
 		ok := false
 		for _, r := range eng.Returns(fn) {
-			ok = eng.Bin(token.GEQ, eng.LoadNamed("leaderEpoch", nil), eng.Param("epoch"))(r.Results[0])
+			ok = eng.RelVal(eng.LoadNamed("leaderEpoch", nil), eng.Param("epoch"), eng.GE)(r.Results[0])
 		}
 		c.Check(ok, "findEpoch finds the first epoch >= the requested one", p.Pos(fn.Pos()), "epochOffsets[i].leaderEpoch >= epoch", "findEpoch's search predicate is not leaderEpoch >= epoch")
 	}
@@ -323,7 +323,7 @@ func runC02(c *eng.Ctx) {
 	if fn := c.Fn("server.(*replicator).tick"); fn != nil {
 		inISR := func(pol bool) []eng.Edge { return eng.BoolEdges(fn, eng.Call(-1, "server.partition.inISR"), pol) }
 		isLagCmp := func(v ssa.Value) bool {
-			return eng.Bin(token.GTR, eng.Call(-1, "time.Time.Sub"), eng.LoadNamed("maxLagTime", nil))(v)
+			return eng.RelVal(eng.Call(-1, "time.Time.Sub"), eng.LoadNamed("maxLagTime", nil), eng.GT)(v)
 		}
 		// outOfSync := a || b is materialised as a boolean phi: true over the first comparison's true edge, else the second comparison
 		isOutOfSync := func(v ssa.Value) bool {
